@@ -611,6 +611,29 @@ class World:
             self.handler_errors.append(type(e).__name__ + ": " + str(e)[:200])
         return True
 
+    def step_fifo_fresh_thread(self) -> bool:
+        """step_fifo() on a thread that has never touched the database before (a pool processor hands every
+        message to a worker thread: thread-local connections and per-thread lazy initialisation start from scratch)."""
+        import threading
+
+        out: list[Any] = []
+
+        def run() -> None:
+            try:
+                out.append(("ok", self.step_fifo()))
+            except BaseException as e:  # noqa: BLE001  (a Crash raised by the commit hook crosses the thread boundary)
+                out.append(("exc", e))
+
+        t = threading.Thread(target=run, daemon=True)
+        t.start()
+        t.join(timeout=120)
+        if not out:
+            raise RuntimeError("worker thread did not finish")
+        kind, val = out[0]
+        if kind == "exc":
+            raise val
+        return bool(val)
+
     def drain(self, max_steps: int = 600) -> int:
         n = 0
         while n < max_steps and self.step_fifo():
